@@ -37,3 +37,42 @@ pub fn today() -> Option<(i32, u8, u8)> {
   let callback = TODAY.read().map(|guard| *guard).unwrap_or(None);
   callback.map(|f| f())
 }
+
+/// Callback invoked with the current nesting depth whenever the body of a function is entered.
+static FUNCTION_BODY: RwLock<Option<fn(usize)>> = RwLock::new(None);
+
+thread_local! {
+  /// Nesting depth of function bodies being evaluated on this thread.
+  static FUNCTION_BODY_DEPTH: std::cell::Cell<usize> = std::cell::Cell::new(0);
+}
+
+/// Installs or removes the callback invoked whenever the body of a function is entered.
+pub fn set_function_body(callback: Option<fn(usize)>) {
+  if let Ok(mut guard) = FUNCTION_BODY.write() {
+    *guard = callback;
+  }
+}
+
+/// Guard of one evaluation of a function body.
+pub struct FunctionBodyGuard;
+
+impl Drop for FunctionBodyGuard {
+  fn drop(&mut self) {
+    FUNCTION_BODY_DEPTH.with(|depth| depth.set(depth.get().saturating_sub(1)));
+  }
+}
+
+/// Probe placed at the entry of every function body evaluation, does nothing but
+/// counting the depth when no callback is installed.
+pub fn enter_function_body() -> FunctionBodyGuard {
+  let depth = FUNCTION_BODY_DEPTH.with(|depth| {
+    depth.set(depth.get() + 1);
+    depth.get()
+  });
+  let guard = FunctionBodyGuard;
+  let callback = FUNCTION_BODY.read().map(|guard| *guard).unwrap_or(None);
+  if let Some(f) = callback {
+    f(depth);
+  }
+  guard
+}
